@@ -61,6 +61,29 @@ func init() {
 			{Name: "rewrite: wire id saved in a local, response re-encoded from a fresh literal", Edits: []Edit{
 				{File: "internal/agent/agent.go", Old: "\tpending, hasPending := a.pendingControl[resp.RequestID]\n\tif hasPending {\n\t\tdelete(a.pendingControl, resp.RequestID)\n\t}\n\n\tforwarded, hasForwarded := a.forwardedControl[resp.RequestID]\n\tif hasForwarded {\n\t\tdelete(a.forwardedControl, resp.RequestID)\n\t}\n", New: "\twireID := resp.RequestID\n\tforwarded, hasForwarded := a.forwardedControl[wireID]\n\tif hasForwarded {\n\t\tdelete(a.forwardedControl, wireID)\n\t}\n\tpending, hasPending := a.pendingControl[wireID]\n\tif hasPending {\n\t\tdelete(a.pendingControl, wireID)\n\t}\n"},
 			}},
+			{Name: "seed class C39-d: forwarding failure reported to the source under the transit-allocated id (helper)", ExpectRule: "C39.R4", ExpectKey: "carries that peer's id", Edits: []Edit{
+				{File: "internal/agent/agent.go", Old: "\t\t\ta.sendControlResponse(peerID, req.RequestID, req.ControlType, false, []byte(\"failed to forward: \"+err.Error()))\n", New: "\t\t\ta.failForwardedControl(peerID, fwdReq, err)\n"},
+				{File: "internal/agent/agent.go", Old: "// handleControlResponse processes a CONTROL_RESPONSE from a peer.\n", New: "func (a *Agent) failForwardedControl(sourcePeer identity.AgentID, fwdReq *protocol.ControlRequest, cause error) {\n\ta.sendControlResponse(sourcePeer, fwdReq.RequestID, fwdReq.ControlType, false, []byte(\"failed to forward: \"+cause.Error()))\n}\n\n// handleControlResponse processes a CONTROL_RESPONSE from a peer.\n"},
+			}},
+			{Name: "forwarding failure reported under fwdID directly", ExpectRule: "C39.R4", ExpectKey: "carries that peer's id", Edits: []Edit{
+				{File: "internal/agent/agent.go", Old: "\t\t\ta.sendControlResponse(peerID, req.RequestID, req.ControlType, false, []byte(\"failed to forward: \"+err.Error()))\n", New: "\t\t\ta.sendControlResponse(peerID, fwdID, req.ControlType, false, []byte(\"failed to forward: \"+err.Error()))\n"},
+			}},
+			{Name: "rewrite: forwarding failure reported through a helper that is given the request's own id", Edits: []Edit{
+				{File: "internal/agent/agent.go", Old: "\t\t\ta.sendControlResponse(peerID, req.RequestID, req.ControlType, false, []byte(\"failed to forward: \"+err.Error()))\n", New: "\t\t\ta.failForwardedControl(peerID, req, err)\n"},
+				{File: "internal/agent/agent.go", Old: "// handleControlResponse processes a CONTROL_RESPONSE from a peer.\n", New: "func (a *Agent) failForwardedControl(sourcePeer identity.AgentID, orig *protocol.ControlRequest, cause error) {\n\ta.sendControlResponse(sourcePeer, orig.RequestID, orig.ControlType, false, []byte(\"failed to forward: \"+cause.Error()))\n}\n\n// handleControlResponse processes a CONTROL_RESPONSE from a peer.\n"},
+			}},
+			{Name: "rewrite: id drawn through an allocator helper called under the same lock", Edits: []Edit{
+				{File: "internal/agent/agent.go", Old: "\ta.nextControlID++\n\trequestID := a.nextControlID\n", New: "\trequestID := a.allocControlIDLocked()\n"},
+				{File: "internal/agent/agent.go", Old: "// getLocalStatus returns the agent's status as JSON.\n", New: "func (a *Agent) allocControlIDLocked() uint64 {\n\ta.nextControlID++\n\treturn a.nextControlID\n}\n\n// getLocalStatus returns the agent's status as JSON.\n"},
+			}},
+			{Name: "rewrite: relayed response returned by a helper that takes the matched entry", Edits: []Edit{
+				{File: "internal/agent/agent.go", Old: "\t\tresponseFrame := &protocol.Frame{\n\t\t\tType:     protocol.FrameControlResponse,\n\t\t\tStreamID: protocol.ControlStreamID,\n\t\t\tPayload:  resp.Encode(),\n\t\t}\n\t\tif err := a.peerMgr.SendToPeer(forwarded.SourcePeer, responseFrame); err != nil {\n\t\t\ta.logger.Debug(\"failed to forward control response\",\n\t\t\t\tlogging.KeyPeerID, forwarded.SourcePeer.ShortString(),\n\t\t\t\tlogging.KeyError, err)\n\t\t}\n", New: "\t\ta.returnControlResponse(forwarded, resp)\n"},
+				{File: "internal/agent/agent.go", Old: "\t\tresp.RequestID = forwarded.RequestID\n", New: ""},
+				{File: "internal/agent/agent.go", Old: "// sendControlResponse sends a control response to a peer.\n", New: "func (a *Agent) returnControlResponse(entry *forwardedControlRequest, resp *protocol.ControlResponse) {\n\tresp.RequestID = entry.RequestID\n\tif err := a.sendControlFrame(entry.SourcePeer, protocol.FrameControlResponse, resp.Encode()); err != nil {\n\t\ta.logger.Debug(\"failed to forward control response\", logging.KeyError, err)\n\t}\n}\n\nfunc (a *Agent) sendControlFrame(to identity.AgentID, frameType uint8, payload []byte) error {\n\treturn a.peerMgr.SendToPeer(to, &protocol.Frame{Type: frameType, StreamID: protocol.ControlStreamID, Payload: payload})\n}\n\n// sendControlResponse sends a control response to a peer.\n"},
+			}},
+			{Name: "relay helper sends the response back to the peer it arrived from", ExpectRule: "C39.R2", ExpectKey: "forwards to the recorded source", Edits: []Edit{
+				{File: "internal/agent/agent.go", Old: "\t\tif err := a.peerMgr.SendToPeer(forwarded.SourcePeer, responseFrame); err != nil {", New: "\t\tif err := a.peerMgr.SendToPeer(a.id, responseFrame); err != nil {"},
+			}},
 			{Name: "rewrite: next id computed first, then stored", Edits: []Edit{
 				{File: "internal/agent/agent.go", Old: "\ta.controlMu.Lock()\n\ta.nextControlID++\n\trequestID := a.nextControlID\n", New: "\ta.controlMu.Lock()\n\trequestID := a.nextControlID + 1\n\ta.nextControlID = requestID\n"},
 			}},
@@ -174,6 +197,250 @@ func c39ForeignKey(fn *ssa.Function, key ssa.Value, at ssa.Instruction, isEntryB
 	return walk(key)
 }
 
+// c39Send is one place where a frame carrying an encoded object is handed to the peer manager:
+// a direct SendToPeer(peer, &Frame{Payload: obj.Encode()}) or a call of a small wrapper
+// (sendControlFrame(peer, type, obj.Encode())) that builds the frame and calls SendToPeer.
+type c39Send struct {
+	fn   *ssa.Function
+	call ssa.CallInstruction
+	peer ssa.Value
+	obj  ssa.Value // receiver of Encode; nil when not visible
+	enc  *ssa.Call
+}
+
+func c39ParamIndex(fn *ssa.Function, v ssa.Value) int {
+	for i, pa := range fn.Params {
+		if ssa.Value(pa) == v {
+			return i
+		}
+	}
+	return -1
+}
+
+// c39FramePayload: the value stored into the []byte field of the frame object handed to SendToPeer.
+func c39FramePayload(frame ssa.Value) ssa.Value {
+	if frame == nil || frame.Referrers() == nil {
+		return nil
+	}
+	for _, rf := range *frame.Referrers() {
+		fa, ok := rf.(*ssa.FieldAddr)
+		if !ok {
+			continue
+		}
+		sl, ok := kit.FieldOfAddr(fa).Type().Underlying().(*types.Slice)
+		if !ok {
+			continue
+		}
+		if b, ok := sl.Elem().Underlying().(*types.Basic); !ok || b.Kind() != types.Byte {
+			continue
+		}
+		for _, rf2 := range *fa.Referrers() {
+			if st, ok := rf2.(*ssa.Store); ok && st.Addr == fa {
+				return st.Val
+			}
+		}
+	}
+	return nil
+}
+
+func c39Sends(p *kit.Program) []c39Send {
+	var out []c39Send
+	encOf := func(payload ssa.Value) (ssa.Value, *ssa.Call) {
+		if payload == nil {
+			return nil, nil
+		}
+		if enc, _, isCall := kit.ResultOf(payload); isCall {
+			if recv := kit.Receiver(enc); recv != nil {
+				return recv, enc
+			}
+		}
+		return nil, nil
+	}
+	type wrapper struct{ peerIdx, payloadIdx int }
+	wrappers := map[*ssa.Function]wrapper{}
+	for _, fn := range p.FuncsInPkg("internal/agent") {
+		for _, c := range kit.Calls(fn) {
+			if !c39IsSendToPeer(c) {
+				continue
+			}
+			peer, payload := kit.Arg(c, 0), c39FramePayload(kit.Arg(c, 1))
+			pi, yi := c39ParamIndex(fn, peer), -1
+			if payload != nil {
+				yi = c39ParamIndex(fn, payload)
+			}
+			if pi >= 0 && yi >= 0 {
+				wrappers[fn] = wrapper{pi, yi}
+				continue
+			}
+			obj, enc := encOf(payload)
+			out = append(out, c39Send{fn, c, peer, obj, enc})
+		}
+	}
+	for g, w := range wrappers {
+		for _, site := range p.StaticCallers(g) {
+			args := site.Common().Args
+			if w.peerIdx >= len(args) || w.payloadIdx >= len(args) {
+				continue
+			}
+			obj, enc := encOf(args[w.payloadIdx])
+			out = append(out, c39Send{site.Parent(), site, args[w.peerIdx], obj, enc})
+		}
+	}
+	sort.Slice(out, func(i, j int) bool { return out[i].call.Pos() < out[j].call.Pos() })
+	return out
+}
+
+func c39IsNamedPtr(t types.Type, pkg, name string) bool {
+	pt, ok := t.(*types.Pointer)
+	if !ok {
+		return false
+	}
+	n, ok := pt.Elem().(*types.Named)
+	return ok && n.Obj().Name() == name && n.Obj().Pkg() != nil && n.Obj().Pkg().Path() == kit.PkgPath(pkg)
+}
+
+// c39AllocatorRoot follows an id value backwards — through phis, locals, parameters (to the
+// arguments at every static call site, three levels) and fields of objects built locally or
+// received as parameters (to the values stored into that field) — and returns a description as
+// soon as one root is an id drawn from the agent's own allocator (a counter of `owner`).
+func c39AllocatorRoot(cx *c16Ctx, owner *types.Named, v ssa.Value, depth int, seen map[ssa.Value]bool) string {
+	v = c16Strip(v)
+	if v == nil || seen[v] || depth > 3 {
+		return ""
+	}
+	seen[v] = true
+	switch x := v.(type) {
+	case *ssa.Phi:
+		for _, e := range x.Edges {
+			if w := c39AllocatorRoot(cx, owner, e, depth, seen); w != "" {
+				return w
+			}
+		}
+		return ""
+	case *ssa.Parameter:
+		fn := x.Parent()
+		for i, pa := range fn.Params {
+			if pa != x {
+				continue
+			}
+			for _, site := range cx.p.StaticCallers(fn) {
+				if i < len(site.Common().Args) {
+					if w := c39AllocatorRoot(cx, owner, site.Common().Args[i], depth+1, seen); w != "" {
+						return w
+					}
+				}
+			}
+		}
+		return ""
+	case *ssa.UnOp:
+		if x.Op != token.MUL {
+			return ""
+		}
+		if a, ok := x.X.(*ssa.Alloc); ok {
+			for _, rf := range *a.Referrers() {
+				if st, isSt := rf.(*ssa.Store); isSt && st.Addr == a {
+					if w := c39AllocatorRoot(cx, owner, st.Val, depth, seen); w != "" {
+						return w
+					}
+				}
+			}
+			return ""
+		}
+		if f := c16FieldOfOwner(x.X, owner); f != nil {
+			if c16CounterField(cx.p, f) {
+				return "an id from this agent's own counter " + f.Name()
+			}
+			return ""
+		}
+		fa, ok := x.X.(*ssa.FieldAddr)
+		if !ok {
+			return ""
+		}
+		fld := kit.FieldOfAddr(fa)
+		// the objects the field is read from: the base itself, or what a parameter base was bound to
+		var objs []ssa.Value
+		var collect func(b ssa.Value, d int)
+		collect = func(b ssa.Value, d int) {
+			switch y := b.(type) {
+			case *ssa.Alloc:
+				objs = append(objs, y)
+			case *ssa.Phi:
+				for _, e := range y.Edges {
+					collect(e, d)
+				}
+			case *ssa.Parameter:
+				if d > 3 {
+					return
+				}
+				for i, pa := range y.Parent().Params {
+					if pa != y {
+						continue
+					}
+					for _, site := range cx.p.StaticCallers(y.Parent()) {
+						if i < len(site.Common().Args) {
+							collect(site.Common().Args[i], d+1)
+						}
+					}
+				}
+			}
+		}
+		collect(fa.X, depth)
+		for _, obj := range objs {
+			if obj.Referrers() == nil {
+				continue
+			}
+			for _, rf := range *obj.Referrers() {
+				fa2, isFA := rf.(*ssa.FieldAddr)
+				if !isFA || kit.FieldOfAddr(fa2) != fld {
+					continue
+				}
+				for _, rf2 := range *fa2.Referrers() {
+					if st, isSt := rf2.(*ssa.Store); isSt && st.Addr == fa2 {
+						if w := c39AllocatorRoot(cx, owner, st.Val, depth+1, seen); w != "" {
+							return w + " (through field " + fld.Name() + " of a locally built object)"
+						}
+					}
+				}
+			}
+		}
+		return ""
+	case *ssa.BinOp:
+		if ok, _ := cx.c16KeyGlobal(x, owner, 0, map[ssa.Value]bool{}); ok {
+			return "an id computed from this agent's own counter"
+		}
+	case *ssa.Call:
+		if ok, _ := cx.c16KeyGlobal(x, owner, 0, map[ssa.Value]bool{}); ok {
+			return "an id from this agent's own allocator (" + kit.CalleeOf(x).String() + ")"
+		}
+	}
+	return ""
+}
+
+// c39ForeignKeyIP is c39ForeignKey that follows a key parameter to the arguments at the static
+// call sites of the function (two levels), judging each argument where the call is made.
+func c39ForeignKeyIP(p *kit.Program, fn *ssa.Function, key ssa.Value, at ssa.Instruction, isEntryBase func(ssa.Value) bool, depth int) string {
+	if w := c39ForeignKey(fn, key, at, isEntryBase); w != "" {
+		return w
+	}
+	if depth >= 2 {
+		return ""
+	}
+	for _, leaf := range kit.PhiLeaves(c16Strip(key)) {
+		i := c39ParamIndex(fn, c16Strip(leaf))
+		if i < 0 {
+			continue
+		}
+		for _, site := range p.StaticCallers(fn) {
+			if i < len(site.Common().Args) {
+				if w := c39ForeignKeyIP(p, site.Parent(), site.Common().Args[i], site, isEntryBase, depth+1); w != "" {
+					return w
+				}
+			}
+		}
+	}
+	return ""
+}
+
 func c39IsSendToPeer(c ssa.CallInstruction) bool {
 	cal := kit.CalleeOf(c)
 	return cal.Name == "SendToPeer" && cal.Pkg == kit.PkgPath("internal/peer")
@@ -235,8 +502,12 @@ func runC39(p *kit.Program, r *kit.Report) {
 	}
 	sort.Slice(demuxFns, func(i, j int) bool { return kit.FuncName(demuxFns[i]) < kit.FuncName(demuxFns[j]) })
 	r.Count("response_demux_functions", len(demuxFns))
-	if !r.Require(len(demuxFns) >= 1, "anchor-unresolved: no function looks up both %s and %s (response demultiplexer)", pend.Name, fwd.Name) {
-		return
+	idSpaceKeys := []string{}
+	for _, fn := range demuxFns {
+		idSpaceKeys = append(idSpaceKeys, kit.FuncName(fn)+" id spaces")
+	}
+	if len(idSpaceKeys) == 0 {
+		idSpaceKeys = []string{"control tables id spaces"} // lookups split over several functions
 	}
 	names := func(m map[*types.Var]bool) string {
 		var s []string
@@ -246,7 +517,7 @@ func runC39(p *kit.Program, r *kit.Report) {
 		sort.Strings(s)
 		return "{" + strings.Join(s, ",") + "}"
 	}
-	for _, fn := range demuxFns {
+	for _, idKey := range idSpaceKeys {
 		same := fwd.R1OK && pend.R1OK && len(fwdAllocs) > 0 && len(pendAllocs) > 0
 		if same {
 			for f := range fwdAllocs {
@@ -261,7 +532,7 @@ func runC39(p *kit.Program, r *kit.Report) {
 			}
 		}
 		ok := same || fwd.Composite
-		r.Decide(ok, "C39.R2", kit.FuncName(fn)+" id spaces", p.Pos(fn.Pos()),
+		r.Decide(ok, "C39.R2", idKey, fwd.Pos,
 			"pending and forwarded ids are drawn from the same allocator "+names(pendAllocs)+": an id is in at most one table",
 			fmt.Sprintf("the response id is looked up in %s (allocator %s) and in %s (%s): the id spaces overlap, so a response meant for a relayed requester is swallowed by a local waiter with the same id (or delivered to both)",
 				pend.Name, names(pendAllocs), fwd.Name, func() string {
@@ -272,71 +543,72 @@ func runC39(p *kit.Program, r *kit.Report) {
 				}()))
 	}
 
-	// ---- R2b: a relayed response goes to the recorded source peer of the matched entry
-	for _, fn := range demuxFns {
-		entries := map[ssa.Value]bool{}
-		for _, acc := range fwdLook[fn] {
-			lk := acc.Instr.(*ssa.Lookup)
-			if lk.CommaOk {
-				for _, rf := range *lk.Referrers() {
-					if e, ok := rf.(*ssa.Extract); ok && e.Index == 0 {
-						entries[e] = true
+	// ---- R2b: a relayed response goes to the recorded source peer of the matched entry.
+	// Relayed response = a ControlResponse handed to the peer manager for somebody other than the
+	// peer whose frame is being handled (wherever the code that does it lives: the
+	// demultiplexer itself, a helper it calls, another file).
+	elemFwd := c16EntryType(fwd)
+	sends := c39Sends(p)
+	fromFwdEntry := func(fn *ssa.Function, v ssa.Value, want func(types.Type) bool) bool {
+		var walk func(x ssa.Value, seen map[ssa.Value]bool) bool
+		walk = func(x ssa.Value, seen map[ssa.Value]bool) bool {
+			x = c16Strip(x)
+			if x == nil || seen[x] {
+				return true
+			}
+			seen[x] = true
+			switch y := x.(type) {
+			case *ssa.Phi:
+				for _, e := range y.Edges {
+					if !walk(e, seen) {
+						return false
 					}
 				}
-			} else {
-				entries[lk] = true
-			}
-		}
-		fromEntry := func(v ssa.Value) bool {
-			all := true
-			leaves := kit.PhiLeaves(v)
-			for _, leaf := range leaves {
-				f, base := kit.LoadedField(leaf)
-				if f != nil && c16IsAgentID(f.Type()) && entries[base] {
-					continue
-				}
-				// local copy: dst := forwarded.SourcePeer (captured or address-taken)
-				if ld, ok := leaf.(*ssa.UnOp); ok {
-					if a, isA := ld.X.(*ssa.Alloc); isA {
-						okAll, n := true, 0
-						for _, rf := range *a.Referrers() {
-							if st, isSt := rf.(*ssa.Store); isSt && st.Addr == a {
-								n++
-								f2, b2 := kit.LoadedField(st.Val)
-								if f2 == nil || !c16IsAgentID(f2.Type()) || !entries[b2] {
-									okAll = false
-								}
+				return len(y.Edges) > 0
+			case *ssa.UnOp:
+				if a, isA := y.X.(*ssa.Alloc); isA {
+					n := 0
+					for _, rf := range *a.Referrers() {
+						if st, isSt := rf.(*ssa.Store); isSt && st.Addr == a {
+							n++
+							if !walk(st.Val, seen) {
+								return false
 							}
 						}
-						if okAll && n > 0 {
-							continue
-						}
 					}
+					return n > 0
 				}
-				all = false
+				f, base := kit.LoadedField(y)
+				return f != nil && base != nil && want(f.Type()) && types.Identical(base.Type(), elemFwd)
 			}
-			return all && len(leaves) > 0
+			return false
 		}
-		nSend, bad := 0, ""
-		for _, f := range kit.WithClosures(fn) {
-			for _, c := range kit.Calls(f) {
-				if !c39IsSendToPeer(c) {
-					continue
-				}
-				nSend++
-				if !fromEntry(kit.Arg(c, 0)) {
-					bad = p.Pos(c.Pos())
-				}
+		return walk(v, map[ssa.Value]bool{})
+	}
+	isU64 := func(t types.Type) bool {
+		b, ok := t.Underlying().(*types.Basic)
+		return ok && b.Kind() == types.Uint64
+	}
+	var relayed []c39Send
+	for _, sd := range sends {
+		if sd.obj != nil && c39IsNamedPtr(sd.obj.Type(), "internal/protocol", "ControlResponse") && !cx.peerValue(sd.peer) {
+			relayed = append(relayed, sd)
+		}
+	}
+	r.Count("relayed_response_sends", len(relayed))
+	if len(relayed) == 0 {
+		r.Violation("C39.R2", "relayed responses forwards to the recorded source", fwd.Pos, "no code hands a ControlResponse to a peer other than the sender of the frame being handled: requesters behind this transit never get an answer")
+	}
+	{
+		ord := map[string]int{}
+		for _, sd := range relayed {
+			key := kit.FuncName(sd.fn) + " forwards to the recorded source"
+			if ord[key]++; ord[key] > 1 {
+				key = fmt.Sprintf("%s#%d", key, ord[key])
 			}
-		}
-		key := kit.FuncName(fn) + " forwards to the recorded source"
-		switch {
-		case nSend == 0:
-			r.Violation("C39.R2", key, p.Pos(fn.Pos()), "the response demultiplexer never sends a relayed response on: requesters behind this transit never get an answer")
-		default:
-			r.Decide(bad == "", "C39.R2", key, p.Pos(fn.Pos()),
-				fmt.Sprintf("%d send(s), each addressed to the AgentID recorded in the matched %s entry", nSend, fwd.Name),
-				"the send at "+bad+" is not addressed to the source peer recorded in the matched forwarded entry: the response reaches an agent that did not ask")
+			r.Decide(fromFwdEntry(sd.fn, sd.peer, c16IsAgentID), "C39.R2", key, p.Pos(sd.call.Pos()),
+				"the relayed response is addressed to the AgentID recorded in a "+fwd.Name+" entry",
+				"the send at "+p.Pos(sd.call.Pos())+" is not addressed to the source peer recorded in the matched forwarded entry: the response reaches an agent that did not ask")
 		}
 	}
 
@@ -381,13 +653,31 @@ func runC39(p *kit.Program, r *kit.Report) {
 		}
 		return false
 	}
+	// frame-driven functions plus the helpers they call (claimControlResponse(id)), two levels
+	onBehalfOfFrame := map[*ssa.Function]bool{}
+	for fn, fd := range cx.frameDriven {
+		if fd {
+			onBehalfOfFrame[fn] = true
+		}
+	}
+	for round := 0; round < 2; round++ {
+		for fn := range onBehalfOfFrame {
+			for _, c := range kit.Calls(fn) {
+				if cal := kit.CalleeOf(c); cal.Static != nil && cal.Static.Blocks != nil && kit.FuncPkgPath(cal.Static) == kit.PkgPath("internal/agent") {
+					for _, g := range kit.WithClosures(cal.Static) {
+						onBehalfOfFrame[g] = true
+					}
+				}
+			}
+		}
+	}
 	for _, ev := range []*c16Eval{pend, fwd} {
 		ord := map[string]int{}
 		for _, acc := range p.FieldAccessesOfKind(ev.Field, kit.MapLookup) {
-			if !cx.frameDriven[acc.Fn] {
+			if !onBehalfOfFrame[acc.Fn] {
 				continue // local bookkeeping (timeouts, getters) uses ids the agent issued itself
 			}
-			bad := c39ForeignKey(acc.Fn, acc.Key, acc.Instr, isEntryBase)
+			bad := c39ForeignKeyIP(p, acc.Fn, acc.Key, acc.Instr, isEntryBase, 0)
 			r.Decide(bad == "", "C39.R4", kit.FuncName(acc.Fn)+" "+c17Ord(ord, "lookup "+ev.Field.Name())+" uses the wire id", p.Pos(acc.Instr.Pos()),
 				"the lookup key is the id decoded from the frame, not redefined from a stored entry before the lookup",
 				"the key of this lookup can be "+bad+": an id from the requester's numbering space is compared with ids this agent allocated, so a relayed response is taken for (or hides) an unrelated request of this agent")
@@ -395,79 +685,41 @@ func runC39(p *kit.Program, r *kit.Report) {
 	}
 
 	// ---- R4b: the relayed response carries the requester's id, restored from the matched entry
-	for _, fn := range demuxFns {
-		fwdEntries := map[ssa.Value]bool{}
-		for _, acc := range fwdLook[fn] {
-			lk := acc.Instr.(*ssa.Lookup)
-			if lk.CommaOk {
-				for _, rf := range *lk.Referrers() {
-					if e, ok := rf.(*ssa.Extract); ok && e.Index == 0 {
-						fwdEntries[e] = true
-					}
+	{
+		ord := map[string]int{}
+		for _, sd := range relayed {
+			key := kit.FuncName(sd.fn) + " " + c17Ord(ord, "relayed response") + " carries the requester's id"
+			ok := false
+			kit.Instrs(sd.fn, func(in ssa.Instruction) {
+				st, isSt := in.(*ssa.Store)
+				if !isSt {
+					return
 				}
-			} else {
-				fwdEntries[lk] = true
-			}
-		}
-		fromEntryID := func(v ssa.Value) bool {
-			for _, leaf := range kit.PhiLeaves(c16Strip(v)) {
-				f, base := kit.LoadedField(c16Strip(leaf))
-				if f == nil || !fwdEntries[base] {
-					return false
+				fa, isFA := st.Addr.(*ssa.FieldAddr)
+				if !isFA || fa.X != sd.obj || !isU64(kit.FieldOfAddr(fa).Type()) {
+					return
 				}
-				if b, ok := f.Type().Underlying().(*types.Basic); !ok || b.Kind() != types.Uint64 {
-					return false
+				if !fromFwdEntry(sd.fn, st.Val, isU64) {
+					return
 				}
-			}
-			return true
-		}
-		for _, f := range kit.WithClosures(fn) {
-			ord := map[string]int{}
-			for _, c := range kit.Calls(f) {
-				if !c39IsSendToPeer(c) {
-					continue
+				if kit.Precedes(st, sd.enc) {
+					ok = true
+					return
 				}
-				key := kit.FuncName(fn) + " " + c17Ord(ord, "relayed response") + " carries the requester's id"
-				obj, enc := c39EncodedObject(c)
-				if obj == nil {
-					r.Floor("anchor-unresolved: cannot see which object is encoded into the frame sent at %s (C39.R4)", p.Pos(c.Pos()))
-					continue
-				}
-				ok := false
-				kit.Instrs(f, func(in ssa.Instruction) {
-					st, isSt := in.(*ssa.Store)
-					if !isSt {
-						return
-					}
-					fa, isFA := st.Addr.(*ssa.FieldAddr)
-					if !isFA || fa.X != obj {
-						return
-					}
-					if b, isB := kit.FieldOfAddr(fa).Type().Underlying().(*types.Basic); !isB || b.Kind() != types.Uint64 {
-						return
-					}
-					if !fromEntryID(st.Val) {
-						return
-					}
-					if kit.Precedes(st, enc) {
-						ok = true
-						return
-					}
-					// restored in one "if hasForwarded" block, encoded in a later one on the same condition
-					if kit.CanReach(st, enc) {
-						for _, gs := range kit.GuardsOf(st) {
-							for _, ge := range kit.GuardsOf(enc) {
-								if gs.Cond == ge.Cond && gs.Polarity == ge.Polarity {
-									ok = true
-								}
+				// restored in one "if hasForwarded" block, encoded in a later one on the same condition
+				if kit.CanReach(st, sd.enc) {
+					for _, gs := range kit.GuardsOf(st) {
+						for _, ge := range kit.GuardsOf(sd.enc) {
+							if gs.Cond == ge.Cond && gs.Polarity == ge.Polarity {
+								ok = true
 							}
 						}
 					}
-				})
-				r.Decide(ok, "C39.R4", key, p.Pos(c.Pos()),
-					"before encoding, the response's id field is set from the id stored in the matched forwarded entry",
-					"the response is re-encoded without restoring the id the requester chose (no store of the matched entry's id into the encoded object precedes Encode on the forwarding path): the requester receives an id from this transit's numbering space, which matches none — or another — of its pending requests")
-			}
+				}
+			})
+			r.Decide(ok, "C39.R4", key, p.Pos(sd.call.Pos()),
+				"before encoding, the response's id field is set from the id stored in the matched forwarded entry",
+				"the response is re-encoded without restoring the id the requester chose (no store of the matched entry's id into the encoded object precedes Encode on the forwarding path): the requester receives an id from this transit's numbering space, which matches none — or another — of its pending requests")
 		}
 	}
 
@@ -503,12 +755,13 @@ func runC39(p *kit.Program, r *kit.Report) {
 		}
 		// the request sent on carries the allocated key
 		ord := map[string]int{}
-		for _, c := range kit.Calls(fn) {
-			if !c39IsSendToPeer(c) || cx.peerValue(kit.Arg(c, 0)) || !kit.Precedes(acc.Instr, c) {
+		for _, sd := range sends {
+			c := sd.call
+			if sd.fn != fn || cx.peerValue(sd.peer) || !kit.Precedes(acc.Instr, c) {
 				continue
 			}
-			obj, _ := c39EncodedObject(c)
-			if obj == nil {
+			obj := sd.obj
+			if obj == nil || obj.Referrers() == nil {
 				continue
 			}
 			carries, n := false, 0
@@ -538,6 +791,45 @@ func runC39(p *kit.Program, r *kit.Report) {
 		}
 	}
 
+	// ---- R4d: a response sent back to the peer whose frame is being handled carries an id that
+	// peer issued — never one drawn from this agent's own allocator
+	{
+		ord := map[string]int{}
+		n := 0
+		{
+			for _, sd := range sends {
+				fn, obj := sd.fn, sd.obj
+				if !cx.peerValue(sd.peer) {
+					continue
+				}
+				if obj == nil || !c39IsNamedPtr(obj.Type(), "internal/protocol", "ControlResponse") || obj.Referrers() == nil {
+					continue
+				}
+				for _, rf := range *obj.Referrers() {
+					fa, isFA := rf.(*ssa.FieldAddr)
+					if !isFA {
+						continue
+					}
+					if b, isB := kit.FieldOfAddr(fa).Type().Underlying().(*types.Basic); !isB || b.Kind() != types.Uint64 {
+						continue
+					}
+					for _, rf2 := range *fa.Referrers() {
+						st, isSt := rf2.(*ssa.Store)
+						if !isSt || st.Addr != fa {
+							continue
+						}
+						n++
+						root := c39AllocatorRoot(cx, pend.Owner, st.Val, 0, map[ssa.Value]bool{})
+						r.Decide(root == "", "C39.R4", kit.FuncName(fn)+" "+c17Ord(ord, "response to the sending peer")+" carries that peer's id", p.Pos(st.Pos()),
+							"the id of the response does not come from this agent's own allocator on any path (it is the received request's id or a stored original)",
+							"the response sent back to the peer the request came from can carry "+root+": that peer receives a number from this transit's id space, which matches none — or another — of the requests it has outstanding")
+					}
+				}
+			}
+		}
+		r.Count("responses_to_sending_peer", n)
+	}
+
 	// ---- R3: allocation, read and registration in one write-lock region
 	for _, acc := range p.FieldAccessesOfKind(pend.Field, kit.MapInsert) {
 		fn := acc.Fn
@@ -556,6 +848,7 @@ func runC39(p *kit.Program, r *kit.Report) {
 			ok, detail = false, "ids are drawn from "+names(pendAllocs)+", not from one counter"
 		}
 		var stores, loads []ssa.Instruction
+		viaHelper := false
 		if ok {
 			kit.Instrs(fn, func(in ssa.Instruction) {
 				switch x := in.(type) {
@@ -574,11 +867,31 @@ func runC39(p *kit.Program, r *kit.Report) {
 				}
 			})
 			if len(stores) == 0 {
-				ok, detail = false, "the function registering the pending request does not advance the id counter itself"
+				// the counter is advanced by an allocator helper (allocControlIDLocked) called here:
+				// the call stands for the advance and must share the lock region with the registration
+				for _, c := range kit.Calls(fn) {
+					cal := kit.CalleeOf(c)
+					if cal.Static == nil || cal.Static.Blocks == nil {
+						continue
+					}
+					advances := false
+					kit.Instrs(cal.Static, func(in ssa.Instruction) {
+						if st, isSt := in.(*ssa.Store); isSt && c16FieldOfOwner(st.Addr, pend.Owner) == counter {
+							advances = true
+						}
+					})
+					if advances {
+						stores = append(stores, c)
+						viaHelper = true
+					}
+				}
+			}
+			if len(stores) == 0 {
+				ok, detail = false, "the function registering the pending request does not advance the id counter (neither itself nor through a helper it calls)"
 			}
 		}
 		if ok {
-			if _, isCall := stores[0].(ssa.CallInstruction); !isCall {
+			if _, isCall := stores[0].(ssa.CallInstruction); !isCall || viaHelper {
 				for _, in := range append(append([]ssa.Instruction{}, stores...), loads...) {
 					if _, same := c17WriteRegion(li, in, acc.Instr); !same {
 						ok, detail = false, "the counter access at "+p.Pos(in.Pos())+" and the registration of the pending entry are not in one write-lock region: two concurrent requests can obtain the same id"
@@ -592,7 +905,18 @@ func runC39(p *kit.Program, r *kit.Report) {
 				if k, isc := kit.ConstInt(w.Val); isc && k == 0 {
 					continue
 				}
-				if len(kit.Locks(w.Fn).AnyHeldAt(w.Instr)) == 0 {
+				wli := kit.Locks(w.Fn)
+				if len(wli.AnyHeldAt(w.Instr)) > 0 {
+					continue
+				}
+				// a "…Locked" helper: no lock operation of its own, every static call site holds a lock
+				held := len(wli.Ops) == 0 && len(p.StaticCallers(w.Fn)) > 0
+				for _, site := range p.StaticCallers(w.Fn) {
+					if len(kit.Locks(site.Parent()).AnyHeldAt(site)) == 0 {
+						held = false
+					}
+				}
+				if !held {
 					ok, detail = false, "the id counter is written without a lock in "+kit.FuncName(w.Fn)
 				}
 			}
